@@ -6,6 +6,8 @@ pub mod oracle;
 pub mod util;
 
 #[cfg(kani)]
+pub mod c12;
+#[cfg(kani)]
 pub mod c14;
 #[cfg(kani)]
 mod playback_gen;
